@@ -38,6 +38,7 @@ EXPLANATION = (
     "takes (counter arithmetic), conformance of arbitrary request sequences to a reference model (behavioural), and "
     "whether the handler reached past the gate does the right thing."
 )
+TECHNIQUE = "static: enum-state dataflow per lifecycle method vs frozen transition table, dispatch-site/receive gate must-pass over the class hierarchy, registry pairing"
 ASSUMPTIONS = [
     "no setattr/exec writes to operating_state or to the SoftwareManager registries (dynamic-feature census)",
     "payloads reach software only through SoftwareManager.receive_payload_from_session_manager (call inventory of "
